@@ -1,4 +1,50 @@
 import Reduino.Fw.LcdAnim
 /- helper lemmas for Props/C18.lean (individual Mathlib modules may be imported here) -/
 namespace Reduino.Lemmas.C18
+open Reduino Reduino.Lcd
+
+/-! ## fields untouched by a step -/
+
+theorem fw_step_fields (a : Anim) (g : Grid) (cols : Nat) :
+    (Fw.step a g cols).1.lastStep = a.lastStep ∧ (Fw.step a g cols).1.speed = a.speed ∧
+    (Fw.step a g cols).1.loop = a.loop ∧ (Fw.step a g cols).1.row = a.row ∧
+    (Fw.step a g cols).1.style = a.style ∧ (Fw.step a g cols).1.text = a.text := by
+  unfold Fw.step
+  cases hst : a.style <;> simp only [] <;> repeat' split
+  all_goals simp [hst]
+
+theorem host_step_fields (a : Anim) (g : Grid) (cols : Nat) :
+    (Host.step a g cols).1.lastStep = a.lastStep ∧ (Host.step a g cols).1.speed = a.speed ∧
+    (Host.step a g cols).1.loop = a.loop ∧ (Host.step a g cols).1.row = a.row ∧
+    (Host.step a g cols).1.style = a.style ∧ (Host.step a g cols).1.text = a.text := by
+  unfold Host.step
+  cases hst : a.style <;> simp only [] <;> repeat' split
+  all_goals simp [hst]
+
+/-! ## the two outcomes of a tick -/
+
+theorem fw_tick_cases (a : Anim) (g : Grid) (cols now : Nat) :
+    (a.active = true ∧ a.due now = true ∧
+      Fw.tick a g cols now =
+        ((Fw.step { a with lastStep := now } g cols).1, (Fw.step { a with lastStep := now } g cols).2, true)) ∨
+    ((a.active = false ∨ a.due now = false) ∧ Fw.tick a g cols now = (a, { grid := g }, false)) := by
+  unfold Fw.tick
+  cases ha : a.active
+  · right; simp
+  · cases hd : a.due now
+    · right; simp
+    · left; simp
+
+theorem host_tick_cases (a : Anim) (g : Grid) (cols now : Nat) :
+    (a.active = true ∧ a.due now = true ∧
+      Host.tick a g cols now =
+        ((Host.step { a with lastStep := now } g cols).1, (Host.step { a with lastStep := now } g cols).2, true)) ∨
+    ((a.active = false ∨ a.due now = false) ∧ Host.tick a g cols now = (a, g, false)) := by
+  unfold Host.tick
+  cases ha : a.active
+  · right; simp
+  · cases hd : a.due now
+    · right; simp
+    · left; simp
+
 end Reduino.Lemmas.C18
